@@ -209,6 +209,14 @@ def grid(tier):
     for names, section in ((["STRT"], "Well"), (["STOP", "STOP"], "Well"), (["step"], "Well"), (["VERS"], "Version"), (["WRAP"], "Version")):
         for version in (1.2, 2.0):       # duplicates of the items the writer itself looks up (witnesses of a known finding)
             yield {"kind": "roundtrip", "names": names, "section": section, "version": version}
+    for version in (1.2, 2.0):
+        # a duplicated NULL with a NaN sample to spell; one twin of a duplicated table mnemonic deleted again (stale suffix on the survivor),
+        # written with and without an explicit wrap
+        yield {"kind": "roundtrip", "names": ["NULL"], "section": "Well", "version": version, "nan_sample": True}
+        yield {"kind": "roundtrip", "names": ["DLM", "DLM"], "section": "Version", "version": version, "nan_sample": True}
+        for names, section in ((["WRAP"], "Version"), (["VERS"], "Version"), (["STRT"], "Well"), (["STOP"], "Well"), (["STEP"], "Well"), (["NULL"], "Well")):
+            for wo in ({}, {"wrap": True}, {"wrap": False}):
+                yield {"kind": "roundtrip", "names": names, "section": section, "version": version, "delete_first_twin": True, "write_opts": wo, "nan_sample": names == ["NULL"]}
     for n in range(0, 3):
         for seq in itertools.product(["A", "", "UNKNOWN", "unknown"], repeat=n):
             for surplus in (0, 1, 2, 3):
@@ -351,18 +359,32 @@ def run_roundtrip(ctx, case):
     names, section, version = case["names"], case["section"], case["version"]
     las = build_las(lasio, names, section)
     sec = las.sections[section]
+    if case.get("nan_sample"):
+        # NaN samples are the normal state of a LASFile: the writer needs the NULL item to spell them
+        las.curves[1].data[1] = np.nan
+        ctx.count("roundtrips_with_a_nan_sample")
+    if case.get("delete_first_twin"):
+        # what a user does after seeing WRAP:1 / WRAP:2: delete one of the two; the survivor keeps its (allowed) stale suffix
+        twin = next(it.mnemonic for it in secops.raw_items(sec) if it.original_mnemonic.upper() == names[0].upper())
+        del sec[twin]
+        ctx.count("roundtrips_after_deleting_one_twin")
     invariant(ctx, sec, "built in memory", las=las if section == "Curves" else None)
     mem_sessions = [it.mnemonic for it in secops.raw_items(sec)]
     mem_originals = [it.original_mnemonic for it in secops.raw_items(sec)]
     buf = io.StringIO()
     try:
-        las.write(buf, version=version)
+        las.write(buf, version=version, **case.get("write_opts", {}))
     except Exception as e:
-        table = {"STRT", "STOP", "STEP", "VERS", "WRAP"}
+        table = {"STRT", "STOP", "STEP", "VERS", "WRAP"} | ({"NULL"} if case.get("delete_first_twin") else set())
         dup = any(n.upper() in table for n in names) and section in ("Well", "Version")
-        ctx.violation("write-raised:duplicated-table-mnemonic" if dup else "write-raised", "write() raised %r" % (e,), case)
+        stale = dup and case.get("delete_first_twin")
+        ctx.violation("write-raised:lone-table-mnemonic-with-stale-suffix" if stale else "write-raised:duplicated-table-mnemonic" if dup else "write-raised",
+                      "write() raised %r" % (e,), case)
         return
     text = buf.getvalue()
+    if [it.original_mnemonic for it in secops.raw_items(sec)] != mem_originals:
+        ctx.violation("write-changed-the-section", "write() left originals %r in the object's section, they were %r" % (
+            [it.original_mnemonic for it in secops.raw_items(sec)], mem_originals), case)
     if [it.original_mnemonic for it in secops.raw_items(sec)] != mem_originals:
         ctx.violation("original-altered", "write() changed original mnemonics", case)
     # what write() emitted: the mnemonic field of every line of that section
@@ -398,7 +420,7 @@ def run_roundtrip(ctx, case):
         if got_sess != want_sess:
             ctx.violation("roundtrip-session-names-differ", "mnemonic_case=%s: session names %r, model %r" % (mc, got_sess, want_sess),
                           {"case": case, "text": text})
-        if mc == "preserve" and got_sess != mem_sessions:
+        if mc == "preserve" and got_sess != mem_sessions and not case.get("delete_first_twin"):      # (a stale suffix in memory is allowed and not reproduced)
             ctx.violation("roundtrip-session-names-not-reproduced", "in memory %r, after round trip %r" % (mem_sessions, got_sess),
                           {"case": case, "text": text})
         st, nm, nontrivial = invariant(ctx, bsec, "after re-read (%s)" % mc, las=back if section == "Curves" else None)
